@@ -285,6 +285,45 @@ example : (fetchTick exTiFail (some 1) exPageA 3 {}).2 = some [] := by decide
 example : (fetchTick exTiOk (some 2) exPageA 3 (fetchTick exTiFail (some 1) exPageA 3 {}).1).2
     = some [⟨⟨1, "b", "t1", 0, "-", some (exAttMsg [7])⟩, exAttMsg [7]⟩] := by decide
 
+/-- **After the token contract has begun to answer differently.** Two ticks of one watcher: an earlier one under the answers
+`ans₁` — whatever was looked up, validated and delivered then — and a tick under `ans₂` against a consistent node.  The later tick
+delivers every event below the polled count that has index 0, converts and (if attestation-shaped) equals what the token
+contract reports *now*, and it delivers no attestation that differs from what the contract reports now. -/
+theorem current_attest_delivered_after_change {log : List Event} {vis size : Nat → Nat} {page : Nat → Int → Option Page}
+    (hc : Consistent log vis size page) (ans₁ ans₂ : Bytes → TiAns) (cnt₁ : Option Int) (page₁ : Nat → Int → Option Page)
+    (fuel₁ : Nat) (s : WState) (f c fuel : Nat)
+    (hf : (fetchTick ans₁ cnt₁ page₁ fuel₁ s).1.fromIndex = f) (hfc : f < c) (hcv : c ≤ vis 0) (hfuel : c - f ≤ fuel) :
+    ∃ batch, (fetchTick ans₂ (some c) page fuel (fetchTick ans₁ cnt₁ page₁ fuel₁ s).1).2 = some batch ∧
+      (∀ e ∈ (log.drop f).take (c - f), ∀ m, e.idx = 0 → e.conv = some m →
+        (isAttest m = true → validateAttest ans₂ m = true) → (⟨e, m⟩ : Unconf) ∈ batch) ∧
+      (∀ u ∈ batch, isAttest u.msg = true → validateAttest ans₂ u.msg = true) := by
+  obtain ⟨n, _, _, h3, _, _⟩ := fetch_tick hc ans₂ (fetchTick ans₁ cnt₁ page₁ fuel₁ s).1 f c fuel hf hfc hcv hfuel
+  refine ⟨_, h3, fun e he m hidx hconv hval => ?_, fun u hu ha => ?_⟩
+  · obtain ⟨batch, hb, hin⟩ := genuine_attest_delivered hc ans₂ (fetchTick ans₁ cnt₁ page₁ fuel₁ s).1 f c fuel hf hfc hcv hfuel
+      e he m hidx hconv hval
+    rw [h3] at hb
+    cases hb
+    exact hin
+  · obtain ⟨e, _, hacc⟩ := List.mem_filterMap.1 hu
+    exact (acceptEv_some hacc).2.2.2 ha
+
+-- the token contract first reports (A, B, 8), then its `name` answers C: an attestation of the earlier values is not
+-- delivered by the later tick, one of the current values is
+private def exTiNew : Bytes → TiAns := fun _ => .results [.ok [.bytes (some [65])], .ok [.bytes (some [67])], .ok [.u256 (some 8)]]
+private def exAttestNew : Bytes := [2] ++ exTok ++ [0, 255, 8] ++ (List.replicate 31 0 ++ [65]) ++ (List.replicate 31 0 ++ [67])
+private def exLogC : List Event := [⟨0, "b", "t0", 0, "-", some (exAttMsg [7])⟩, ⟨1, "b", "t1", 0, "-", some (exAttMsg [7])⟩,
+  ⟨2, "b", "t2", 0, "-", some ⟨[7], 0, 0, 2, 0, exAttestNew⟩⟩]
+private def exPageC : Nat → Int → Option Page := fun _ s => some ⟨(exLogC.drop s.toNat).take 2, (min (s.toNat + 2) 3 : Nat)⟩
+example : (fetchTick exTiOk (some 1) (fun _ _ => some ⟨exLogC.take 1, 1⟩) 3 {}).2 = some [⟨⟨0, "b", "t0", 0, "-", some (exAttMsg [7])⟩, exAttMsg [7]⟩] := by decide
+example : (fetchTick exTiNew (some 3) exPageC 3 (fetchTick exTiOk (some 1) (fun _ _ => some ⟨exLogC.take 1, 1⟩) 3 {}).1).2
+    = some [⟨⟨2, "b", "t2", 0, "-", some ⟨[7], 0, 0, 2, 0, exAttestNew⟩⟩, ⟨[7], 0, 0, 2, 0, exAttestNew⟩⟩] := by decide
+
+example : Consistent exLogC (fun _ => 3) (fun _ => 2) exPageC ∧ (fetchTick exTiOk (some 1) (fun _ _ => some ⟨exLogC.take 1, 1⟩) 3 {}).1.fromIndex = 1 :=
+  ⟨{ size_pos := fun _ => by decide, vis_mono := fun _ => Nat.le_refl _, vis_le := fun _ => by decide, answer := fun k s _ => by
+      simp only [exPageC, Int.toNat_natCast, Option.some.injEq, Page.mk.injEq, List.take_eq_take_iff, and_true]
+      have : exLogC.length = 3 := by decide
+      simp only [List.length_drop, this]; omega }, by decide⟩
+
 private theorem govEvents_complete {cfg : Cfg} {node : ReobsNode} {bh : Hash} {evs : List Event}
     {cands : List (Unconf × Header)} (hg : govEvents cfg node bh evs = some cands)
     {e : Event} (he : e ∈ evs) (hidx : e.idx = 0) (hgov : e.contract = cfg.gov) (hb : e.block = bh)
